@@ -1,0 +1,30 @@
+//go:build verif
+
+// Contracts for deductive verification (read by /verif/govc). Comment-only: this file adds no code.
+package node
+
+// GetRewardAge: halving age from the cumulative reward. Pure function of the pool record.
+// nopanic: the subtraction and the division below panic for TotalReward >= 400000000000000sao (DESIGN 7.7).
+//@ func GetRewardAge(pool) (age)
+//@   functional
+//@   nopanic [C02.age]
+
+// BeginBlocker: mints the per-block storage reward.
+//@ func BeginBlocker(ctx, k)
+//@   requires has(Pool) ==> get(Pool).TotalReward.Denom == "sao" && get(Pool).TotalReward.Amount >= 0 && get(Pool).TotalReward.Amount < 400000000000000
+//@   requires param(KeyBlockReward).Amount >= 0 && param(KeyBaseLine).Amount >= 0 && param(KeyHalvingPeriod) > 10 && param(KeyAdjustmentPeriod) > 10
+//@   modifies Pool, Bank
+//@   ensures [C08.mint.nopledge] old(has(Pool)) && old(get(Pool).TotalPledged.Amount) == 0 ==> get(Pool) == old(get(Pool)) && (forall a addr, d string :: bal(a, d) == old(bal(a, d)))
+//@   ensures [C08.mint.nopool] !old(has(Pool)) ==> !has(Pool) && (forall a addr, d string :: bal(a, d) == old(bal(a, d)))
+//@   ensures [C08.mint.only] forall a addr, d string :: a != moduleAddr("node") ==> bal(a, d) == old(bal(a, d))
+//@   ensures [C08.mint.counter] old(has(Pool)) ==> has(Pool) && get(Pool).TotalReward.Amount - old(get(Pool).TotalReward.Amount)
+//@       == bal(moduleAddr("node"), param(KeyBlockReward).Denom) - old(bal(moduleAddr("node"), param(KeyBlockReward).Denom))
+//@   ensures [C08.mint.bound] old(has(Pool)) ==> bal(moduleAddr("node"), param(KeyBlockReward).Denom) - old(bal(moduleAddr("node"), param(KeyBlockReward).Denom))
+//@       <= div(param(KeyBlockReward).Amount, pow2(GetRewardAge(old(get(Pool)))))
+//@   ensures [C08.mint.nonneg] bal(moduleAddr("node"), param(KeyBlockReward).Denom) - old(bal(moduleAddr("node"), param(KeyBlockReward).Denom)) >= 0
+//@   ensures [C08.mint.baseline] old(has(Pool)) && old(get(Pool).TotalPledged.Amount) < param(KeyBaseLine).Amount && old(get(Pool).TotalPledged.Denom) == param(KeyBaseLine).Denom ==>
+//@       bal(moduleAddr("node"), param(KeyBlockReward).Denom) - old(bal(moduleAddr("node"), param(KeyBlockReward).Denom))
+//@       <= max(0, decmul(old(get(Pool).TotalPledged.Amount) * 1000000000000000000, decFromStr(param(KeyAPY))) / (param(KeyHalvingPeriod) / 2) / 1000000000000000000)
+//@   ensures [C08.mint.acc] old(has(Pool)) && old(get(Pool).TotalStorage) > 0 ==> get(Pool).AccRewardPerByte.Amount - old(get(Pool).AccRewardPerByte.Amount)
+//@       == ((bal(moduleAddr("node"), param(KeyBlockReward).Denom) - old(bal(moduleAddr("node"), param(KeyBlockReward).Denom))) * 1000000000000000000) / old(get(Pool).TotalStorage)
+//@   ensures [C14.begin.frame] old(has(Pool)) ==> get(Pool).TotalStorage == old(get(Pool).TotalStorage) && get(Pool).TotalPledged == old(get(Pool).TotalPledged)
